@@ -215,6 +215,8 @@ def run(prop, ctx, seed=0):
         if r["na"]:
             skipped += 1
             rows.append({"variant": name, "kind": kind, "result": "skipped: " + r["na"]})
+            if "does not parse" in r["na"]:
+                errors.append(f"SELF: variant `{name}` is malformed: {r['na']}")
             continue
         viol = r["violations"]
         if kind == "mutant":
